@@ -112,7 +112,10 @@ def rules(ctx, db):
             ctx.sites()
             sq_push_shape(ctx, "R2", f, bb)
     if has_poll(db):
-        ev = [f for f in db.fns.values() if f.name == "compio_driver::sys::driver::poll::FdQueue::event"]
+        # by role: the function of the polling driver that fills in polling::Event.key
+        ev = [f for f in db.fns.values() if "::driver::poll::" in f.id and any(
+            "a" in s_ and any(isinstance(e, list) and e[0] == "f" and e[2] == "key" and e[3] == "polling::Event" for e in s_["a"]["p"])
+            for _, _, s_ in f.stmts())]
         if not ev:
             ctx.missing("R1", "FdQueue::event")
         for f in ev:
